@@ -58,6 +58,8 @@ def generate(seed, tier):
     # the service stamps its answers with ITS clock: in step with the agent's, stuck at 0, running backwards, or jumping
     return {"ops": ops, "line_level": r.random() < 0.5, "two_threads": r.random() < 0.4,
             "svc_clock": r.choice(("steady", "steady", "zero", "backwards", "jumpy")),
+            # the application fills one scratch list per call and reuses it for the next registration
+            "scratch_lists": r.random() < 0.3,
             "knobs": common.race_knobs(r, stall_p=0.0)}
 
 
@@ -72,6 +74,8 @@ def shrink_candidates(s):
         yield dict(s, line_level=False)
     if s.get("svc_clock", "steady") != "steady":
         yield dict(s, svc_clock="steady")
+    if s.get("scratch_lists"):
+        yield dict(s, scratch_lists=False)
 
 
 def execute(s, ch):
@@ -101,6 +105,7 @@ def execute(s, ch):
             tracer.install()
         w.start()
         handles = {}
+        scratch_w, scratch_m = [], []
         model = {}          # reg -> line   (live registrations)
         reg_line = {}
         svc_lines = []
@@ -130,9 +135,14 @@ def execute(s, ch):
                     errors.append(("poll", repr(e)))
             elif o["op"] == "register":
                 ms = [MetricDefinition("m_reg%d" % o["reg"], "COUNTER")] if o["metric"] else []
+                wl = ["'reg%d'" % o["reg"]]
+                if s.get("scratch_lists") and not s["two_threads"]:
+                    scratch_w[:] = wl
+                    scratch_m[:] = ms
+                    wl, ms = scratch_w, scratch_m
                 try:
                     handles[o["reg"]] = w.deep.register_tracepoint(
-                        p.basename, 1 + o["line"], {"fire_count": "-1", "fire_period": "0"}, ["'reg%d'" % o["reg"]], ms)
+                        p.basename, 1 + o["line"], {"fire_count": "-1", "fire_period": "0"}, wl, ms)
                     model[o["reg"]] = o["line"]
                     reg_line[o["reg"]] = o["line"]
                 except kernel.SimKilled:
